@@ -40,6 +40,7 @@ EXPLANATION = (
     "weights; and, by homogeneity-degree typing under rescaling of the sample weights, every quantity of the weighted EM "
     "has degree 0 (weight normalisation precedes every absolute regulariser). PSD-ness of covariances, means inside the "
     "bounding box and the weight-replication equivalence are numerical facts over all data sets and are not decided."
+    " Also: nothing but its initialisation and increment writes the split loop's counter, and (l) a row of the E-step's responsibilities is never 0/0 (guarded divisor or row-maximum shift)."
 )
 ASSUMPTIONS = ["numpy argmax/argmin over axis 1 return indices in [0, shape[1])", "scipy multivariate_normal pdf/logpdf do not depend on the sample weights"]
 
